@@ -12,6 +12,8 @@ if os.path.exists(f"{V}/seeded/RESULTS.tsv"):
 rows = []
 def key(d):
     m = re.match(r"C(\d+)-(\d+)", d)
+    if not m:
+        return (int(re.match(r"C(\d+)", d).group(1)), 999)
     return (int(m.group(1)), int(m.group(2)))
 for d in sorted([os.path.basename(p) for p in glob.glob(f"{V}/seeded/C*-*")], key=key):
     mp = f"{V}/seeded/{d}/meta.json"
